@@ -779,7 +779,9 @@ func anyOfItemsCycle() *recCase {
 		`"Bar":{"type":"object","properties":{"barItems":{"type":"array","items":` + branches + `}}}},"type":"object","properties":{"q":{"type":"array","items":` + branches + `}}}`
 	return &recCase{name: "anyof.items.mutual", files: []gen.FileText{{RelPath: "prog.json", Text: text}}, typ: "ProgJson",
 		docs: func(d int) jv.V {
-			v := jv.ObjV(jv.Field("fooItems", jv.ArrV()))
+			// the innermost element has no members: an empty optional array would be
+			// dropped by omitempty when the value is marshalled again
+			v := jv.ObjV()
 			for i := 0; i < d; i++ {
 				if i%2 == 0 {
 					v = jv.ObjV(jv.Field("barItems", jv.ArrV(v)))
@@ -791,19 +793,25 @@ func anyOfItemsCycle() *recCase {
 		}}
 }
 
-func recursiveCases(t *rapid.T) *recCase {
+func recursiveCases(t *rapid.T, kind int) *recCase {
 	obj := func(props string, extra string) string {
 		return `{"type":"object","properties":{` + props + `}` + extra + `}`
 	}
 	defsKw := rapid.SampledFrom([]string{"$defs", "definitions"}).Draw(t, "defskw")
 	refp := "#/" + defsKw + "/"
-	switch rapid.IntRange(0, 6).Draw(t, "reckind") {
+	switch kind {
 	case 6: // a sibling file (other $id) whose root refers to itself through "#"
 		a := `{"$id":"https://example.com/prog","type":"object","properties":{"list":{"$ref":"other.json"}},"required":["list"]}`
 		b := `{"$id":"https://example.com/other","type":"object","properties":{"value":{"type":"integer"},"next":{"$ref":"#"}},"required":["value"]}`
 		return &recCase{name: "cross.hash", files: []gen.FileText{{RelPath: "prog.json", Text: a}, {RelPath: "other.json", Text: b}}, typ: "ProgJson",
 			docs: func(d int) jv.V { return jv.ObjV(jv.Field("list", nestDoc("prop", d))) },
 			wrap: func(v jv.V) jv.V { return jv.ObjV(jv.Field("list", v)) }}
+	case 8: // self reference through a single-branch allOf (the idiom that attaches a description to a reference)
+		text := `{"$id":"https://example.com/prog","type":"object","properties":{"head":{"$ref":"` + refp + `Node"}},"` + defsKw + `":{"Node":` +
+			obj(`"value":{"type":"integer"},"next":{"description":"the rest","allOf":[{"$ref":"`+refp+`Node"}]}`, `,"required":["value"]`) + `}}`
+		return &recCase{name: "self.allof.single", files: []gen.FileText{{RelPath: "prog.json", Text: text}}, typ: "ProgJson",
+			docs: func(d int) jv.V { return jv.ObjV(jv.Field("head", nestDoc("prop", d))) },
+			wrap: func(v jv.V) jv.V { return jv.ObjV(jv.Field("head", v)) }}
 	case 0: // self reference through a property
 		text := `{"$id":"https://example.com/prog","type":"object","properties":{"head":{"$ref":"` + refp + `Node"}},"` + defsKw + `":{"Node":` +
 			obj(`"value":{"type":"integer"},"next":{"$ref":"`+refp+`Node"}`, `,"required":["value"]`) + `}}`
@@ -902,16 +910,27 @@ func evalRecursive(cs *gen.Case, jobs []core.Job) (bool, string, error) {
 }
 
 func runRecursive(c *core.Ctx) {
-	n := c.N(12, 60)
+	// every kind of recursive graph is visited (the kinds are few; the keyword
+	// spelling and the option are drawn per case)
+	n := c.N(2, 8)
 	reported := map[string]bool{}
-	res := c.Rapid("recursive", n, 3, func(rt *rapid.T) {
-		rc := recursiveCases(rt)
-		if rapid.IntRange(0, 6).Draw(rt, "anyofcycle") == 0 {
+	for kind := 0; kind <= 8; kind++ {
+		kind := kind
+		runRecursiveKind(c, kind, n, reported)
+	}
+}
+
+func runRecursiveKind(c *core.Ctx, kind, n int, reported map[string]bool) {
+	res := c.Rapid(fmt.Sprintf("recursive.%d", kind), n, 3+kind, func(rt *rapid.T) {
+		var rc *recCase
+		if kind == 7 {
 			if c.Avoid("refs.anyof_items_cycle") {
 				c.ExcludedMap()["refs.anyof_items_cycle"]++
-			} else {
-				rc = anyOfItemsCycle()
+				return
 			}
+			rc = anyOfItemsCycle()
+		} else {
+			rc = recursiveCases(rt, kind)
 		}
 		cfg := baseConfig()
 		cfg.ExtraImports = rapid.Bool().Draw(rt, "extra")
